@@ -65,7 +65,7 @@ def validate_pool(ctx, traces, name):
         cfg = ('SPECIFICATION TSpec\n'
                f'CONSTANTS N = {N} P = {P} FaultKs = {{{", ".join(str(i) for i in range(0, N + 1))}}} '
                'FaultPoints = {"before", "mid", "after"} FaultModes = {"kill", "exit3", "raise"} '
-               'Fixed = FALSE\nCONSTRAINT Track\nPOSTCONDITION Report\nCHECK_DEADLOCK FALSE\n')
+               'Fixed = TRUE\nCONSTRAINT Track\nPOSTCONDITION Report\nCHECK_DEADLOCK FALSE\n')
         import harness.traces as T
         vs = _validate_cfg(ctx, [traces[i] for i in idx], f'{name}_N{N}_P{P}', cfg)
         for i, v in zip(idx, vs):
